@@ -79,6 +79,10 @@ def check_drift_knob(case, ctx):
     pl[knob] = loose
     ps[knob] = strict
     items = case["items"]
+    if spec.uses_rng:
+        # an earlier object with the looser setting, same data, other random numbers: results memoised across
+        # objects (per setting) would make the two compared runs see different random quantities
+        run_trace(spec, name, pl, items, base + 7919)
     sl = run_trace(spec, name, pl, items, base)
     ss = run_trace(spec, name, ps, items, base)
     fl, fs = first(sl), first(ss)
@@ -233,7 +237,7 @@ PROPERTY = {
         SubCheck("cusum_known_target", check_drift_knob, strategy=strat_drift(["CUSUM"], cusum_known=True), nontrivial=lambda L: "nontrivial" in L, quick=600, thorough=12000, shards_quick=8, describe=_desc),
         _sub("concept", ["DDM", "EDDM", "STEPD"], 450, 9000),
         _sub("lfr", ["LinearFourRates"], 120, 3000),
-        _sub("kdq", ["KdqTreeStreaming", "KdqTreeBatch"], 240, 6000),
+        _sub("kdq", ["KdqTreeStreaming", "KdqTreeBatch"], 400, 8000, shards=16),
         _sub("batch", ["NNDVI", "HDDDM", "CDBD"], 450, 9000),
         SubCheck("warning_knobs", check_warn_knob, strategy=strat_warn, nontrivial=lambda L: "nontrivial" in L, quick=450, thorough=9000, shards_quick=8, describe=_desc),
     ],
